@@ -39,6 +39,7 @@ from insights.core.spec_factory import (simple_file, glob_file, first_file, fore
                                          RegistryPoint, SpecSet, RawFileProvider, TextFileProvider, DatasourceProvider,
                                          FileProvider, ContentProvider, CommandOutputProvider)
 from insights.collect import apply_blacklist     # noqa: E402
+import insights.specs.default                    # noqa: E402,F401  (symbolic deny entries resolve against DefaultSpecs: part of the base registry)
 from insights.util import subproc, fs            # noqa: E402
 import insights.util as iutil                    # noqa: E402
 import errno                                     # noqa: E402
@@ -361,7 +362,20 @@ def gen_case(st, tier, flavour):
                     dcmds.append("/usr/bin/podman exec %s cat /etc/os-release" % rk.choice(sp["containers"]))
             elif rk.random() < 0.06:
                 dcomps.append(sp["name"])
+        if (dfiles or dcmds) and rk.random() < 0.25:
+            # symbolic spec names (the other documented form of a deny entry) mixed in at any position: they switch off
+            # DefaultSpecs.<name> and must not disturb the literal entries around them
+            for lst in (dfiles, dcmds):
+                if lst and rk.random() < 0.7:
+                    for _ in range(rk.choice([1, 1, 2])):
+                        lst.insert(rk.randrange(len(lst) + 1), rk.choice(["hostname", "uptime", "date", "ps_auxww", "not_a_spec_name"]))
         case["rm_conf"] = {"files": dfiles, "commands": dcmds, "components": dcomps}
+        if rk.random() < 0.15:
+            # a history of layouts seen by ONE context object: after the collection a directory the specs read from is
+            # replaced by a link that leaves the root, and the same context evaluates the spec set again
+            dirs = sorted(set("/".join(f.split("/")[:k]) for f in files for k in range(1, len(f.split("/")))))
+            if dirs:
+                case["relayout"] = {"dir": rk.choice(dirs)}
     # ---- faults during persist and corruption between the phases (C11)
     if flavour == "C11" and case["entry"] == "mirror" and rk.random() < 0.2:
         # parallel marshalling: Hydration(pool=...) serializes the elements of a multi-output spec on a pool
@@ -674,7 +688,7 @@ def collect_phase(case, env, Ctx, rps, impls, stats):
     rm = dict(case["rm_conf"])
     if rm.get("files"):
         # the user names files the way the spec does: against the host's root
-        rm["files"] = [env.prefix + f for f in rm["files"]]
+        rm["files"] = [(env.prefix + f if f.startswith("/") else f) for f in rm["files"]]
     if rm.get("components"):
         rm["components"] = [dr.get_name(impls[n]) for n in rm["components"] if n in impls]
     c.rm = rm
@@ -801,7 +815,7 @@ def collect_phase_real(case, env, Ctx, rps, impls, stats):
     c = Collected()
     rm = dict(case["rm_conf"])
     if rm.get("files"):
-        rm["files"] = [env.prefix + f for f in rm["files"]]
+        rm["files"] = [(env.prefix + f if f.startswith("/") else f) for f in rm["files"]]
     if rm.get("components"):
         rm["components"] = [dr.get_name(impls[n]) for n in rm["components"] if n in impls]
     c.rm = rm
@@ -1205,6 +1219,54 @@ def _is_prefix_text(got, want):
 # ------------------------------------------------------------------------------------------------
 # executor + checks
 # ------------------------------------------------------------------------------------------------
+def relayout_phase(case, env, c, Ctx, rps, impls, stats):
+    """The layout changes between two evaluations that share one context object: a directory is replaced by a link to a
+    copy of itself OUTSIDE the root.  Nothing below it may be yielded any more."""
+    viols = []
+    d = os.path.join(env.tree, case["relayout"]["dir"])
+    if os.path.islink(d) or not os.path.isdir(d):
+        return viols
+    out = os.path.join(env.base, "relayout-outside")
+    shutil.copytree(d, out, symlinks=True)
+    for dp, _dn, fn in os.walk(out):
+        for f in fn:
+            fp = os.path.join(dp, f)
+            if not os.path.islink(fp):
+                with open(fp, "w") as fh:
+                    fh.write("OUTSIDE-AFTER-RELAYOUT %s\n" % f)
+    os.rename(d, d + ".moved-away")
+    os.symlink(out, d)
+    stats["probes"]["relayout_second_evaluation_on_same_context"] = 1
+    graph = {}
+    for rp in rps.values():
+        graph.update(dr.get_dependency_graph(rp))
+    b2 = dr.Broker()
+    b2[Ctx] = c.ctx
+    b2["cleaner"] = None
+    b2["redact_config"] = dict(case["rm_conf"])
+    b2["client_config"] = None
+    try:
+        dr.run_all(graph, b2, None)
+    except HarnessError:
+        raise
+    except Exception as e:
+        viols.append(V("C06.escape", "escape-after-relayout:%s" % type(e).__name__, "second evaluation raised %r" % (e,)))
+        return viols
+    fac_of = dict((sp["name"], sp["factory"]) for sp in case["specs"])
+    for name, rp in rps.items():
+        for p in flatten(b2.get(rp)):
+            if isinstance(p, FileProvider) and not inside(p.path, env.root):
+                try:
+                    leak = p.content if not isinstance(p, RawFileProvider) else [p.content.decode("utf-8", "replace")]
+                except Exception as e:
+                    leak = ["<unreadable: %s>" % type(e).__name__]
+                viols.append(V("C06.containment", "outside-root:%s:after-relayout" % fac_of[name],
+                               "%s (%s): after %s became a link leaving the root, the same context yields a provider for %s "
+                               "(real location %s); content %r" % (name, fac_of[name], case["relayout"]["dir"], p.path[len(env.base):],
+                                                                    os.path.realpath(p.path)[len(env.base):], leak[:1])))
+    return viols
+
+
 def run_case(case, flavour):
     stats = {"faults_fired": {}, "probes": {}}
     env = Env(case)
@@ -1221,6 +1283,8 @@ def run_case(case, flavour):
                     c = collect_phase(case, env, Ctx, rps, impls, stats)
                 if flavour == "C06":
                     viols = oracle_c06(case, env, c, rps, impls, stats)
+                    if case.get("relayout") and c.escaped is None:
+                        viols += relayout_phase(case, env, c, Ctx, rps, impls, stats)
                 else:
                     viols = oracle_c11(case, env, c, rps, impls, stats)
                 for name, rp in sorted(rps.items()):
